@@ -121,6 +121,9 @@ def encodings(c):
     D = dict(Open=c.open, High=c.high, Low=c.low, Close=c.close, Volume=c.volume, Timestamp=ts)
     return [
         ("Candle", lambda: clone([c])[0]), ("dict", lambda: dict(d)), ("Dict-capitalised", lambda: dict(D)),
+        # a dict that carries more than the documented keys (e.g. saved with vars(candle) in an earlier run): the extras
+        # are not part of the candle, and nested objects of the caller are neither adopted nor written to
+        ("dict+extra-keys", lambda: dict(d, indicators={"FOREIGN": 1.5}, sub_indicators={"FOREIGN_sub": {"x": 2.5}}, clean_values={"open": 1.0}, note="saved")),
         ("list-ts-last", lambda: vals + [ts]), ("list-ts-first", lambda: [ts] + vals),
         ("[Candle]", lambda: clone([c])), ("[dict]", lambda: [dict(d)]), ("[list-ts-last]", lambda: [vals + [ts]]), ("[list-ts-first]", lambda: [[ts] + vals]),
     ]
@@ -187,7 +190,7 @@ def run_encodings(ctx, P):
         h = make()
         for c in cs:
             obj = encodings(c)[li][1]()
-            keep = copy.copy(obj) if not isinstance(obj, list) else [copy.copy(x) if isinstance(x, (list, dict)) else x for x in obj]
+            keep = _keep(obj)
             h.append(obj)
             if isinstance(obj, (dict, list)):
                 same = (obj == keep) if not isinstance(obj, list) else (len(obj) == len(keep) and all(_same(a, b) for a, b in zip(obj, keep)))
@@ -196,6 +199,15 @@ def run_encodings(ctx, P):
         if host == "hexital":
             for tf, lst in h.get_candles().items():
                 ctx.require(f"every-timeframe-got-the-timestamp[{label}]", all(c.timestamp is not None for c in lst), f"timeframe {tf} has candles without timestamp")
+
+
+def _keep(obj):
+    """a copy of the caller's container deep enough to notice writes into nested dicts / lists (leaves are shared)"""
+    if isinstance(obj, dict):
+        return {k: _keep(v) for k, v in obj.items()}
+    if isinstance(obj, list):
+        return [_keep(v) for v in obj]
+    return obj
 
 
 def _same(a, b):
